@@ -302,7 +302,7 @@ def daemon_test(test_filter, env=None, timeout=900, build_timeout=1500):
     return p.returncode, p.stdout
 
 
-def lib_build(build_timeout=1500):
+def lib_build(build_timeout=1500, profile="dev"):
     """Build the standalone harness crate (path deps on REPO/packet, REPO/table)."""
     hd = os.path.join(ROOT, "harness", "lib")
     e = cargo_env()
@@ -311,18 +311,19 @@ def lib_build(build_timeout=1500):
     lock = _lock()
     try:
         t0 = time.time()
-        b = subprocess.run(["timeout", str(build_timeout), "cargo", "build", "--offline", "--bins"], cwd=hd, env=e,
+        b = subprocess.run(["timeout", str(build_timeout), "cargo", "build", "--offline", "--bins"] +
+                           (["--release"] if profile == "release" else []), cwd=hd, env=e,
                            stdout=subprocess.PIPE, stderr=subprocess.STDOUT, text=True)
         if b.returncode != 0:
             raise ToolError("cargo build of harness/lib failed:\n" + b.stdout[-6000:])
         log(f"[cargo] harness/lib built in {time.time() - t0:.1f}s")
     finally:
         lock.close()
-    return os.path.join(TARGET, "lib", "debug")
+    return os.path.join(TARGET, "lib", "release" if profile == "release" else "debug")
 
 
-def lib_run(binname, args, timeout=900, env=None, stdin=None):
-    d = lib_build()
+def lib_run(binname, args, timeout=900, env=None, stdin=None, profile="dev"):
+    d = lib_build(profile=profile)
     e = dict(os.environ)
     if env:
         e.update(env)
